@@ -93,6 +93,10 @@ def b_list(I, v=()):
 
 
 def b_tuple(I, v=()):
+    items = I.concrete_items(v)
+    if items is None and isinstance(v, (MSet, SSetV)):
+        # tuple(<symbolic set>): only usable where order does not matter (str.startswith / endswith)
+        return SymTupleOfSet(I.set_value(v))
     return tuple(I.need_items(v))
 
 
@@ -492,6 +496,9 @@ def str_method(I, s, name, args, kwargs):
         (p,) = args
         if isinstance(p, tuple):
             return I.as_bool_value(smt.Or(*[smt.StrPrefixOf(I.term_of(x), st) for x in p]))
+        if isinstance(p, SymTupleOfSet):
+            x = smt.fresh_bound('x', STR)
+            return I.as_bool_value(smt.Exists([x], smt.And(smt.SetMember(x, p.setv.t), smt.StrPrefixOf(x, st))))
         return I.as_bool_value(smt.StrPrefixOf(I.term_of(p), st))
     if name == 'endswith':
         (p,) = args
